@@ -665,6 +665,23 @@ pub fn run(ctx: &Ctx) -> Outcome {
             }
         }
         Job::Huge => {
+            for (a, t, d) in refs::coincidence_frames() {
+                let good = refs::enc(a, t, &d);
+                check_string(&good, "coincidences", rep);
+                check_string(&refs::enc_crlf(a, t, &d), "coincidences", rep);
+                // the same line with its checksum digits replaced by its length digits / type digits (equal to the true
+                // checksum for some of these frames, wrong for the others — the reference decoder knows which)
+                let n = good.len();
+                for (from, what) in [(1usize, "len"), (7, "type")] {
+                    let mut s = good.clone();
+                    let (x, y) = (good[from], good[from + 1]);
+                    s[n - 2] = x;
+                    s[n - 1] = y;
+                    check_string(&s, "coincidences", rep);
+                    let _ = what;
+                }
+                rep.count("coincidence_frames");
+            }
             // very long inputs: 100 kB of hex behind a colon, of garbage, and a valid frame followed by 100 kB
             let mut rng = ctx.rng("huge", 0);
             for k in 0..6 {
@@ -711,6 +728,7 @@ pub fn run(ctx: &Ctx) -> Outcome {
         floor("accepted inputs without CRLF", report.get("accepted_without_crlf") > 0, report.get("accepted_without_crlf")),
         floor("accepted inputs with CRLF", report.get("accepted_with_crlf") > 0, report.get("accepted_with_crlf")),
         floor("inputs with more than 255 data pairs", report.get("more_than_255_data_pairs") > 0, report.get("more_than_255_data_pairs")),
+        floor("frames whose fields coincide (all fields one value, for every value; checksum equal to another field or to a syntax byte)", report.get("coincidence_frames") == 2240, report.get("coincidence_frames")),
         floor("100 kB inputs", report.get("huge_inputs") == 6, report.get("huge_inputs")),
         floor("strings also decoded through the stream entry point (Frame::read), some with a hard error mid-line", report.get("stream_reads") > 10_000 && report.get("stream_reads_with_hard_error") > 100, report.get("stream_reads")),
     ];
